@@ -4,9 +4,9 @@ Import ListNotations.
 From SAV.orm Require Import Expire.
 Open Scope Z_scope.
 
-(* no pending change, and either expired or holding the value the session's open transaction sees *)
+(* attached to the session, no pending change, and either expired or holding the value the session's open transaction sees *)
 Definition synced (s : state) (k : Z) (a : nat) : Prop :=
-  orig (objs s k) a = None /\
+  oatt (objs s k) = true /\ orig (objs s k) a = None /\
   (oval (objs s k) a = None \/ (snap s <> None /\ oval (objs s k) a = Some (view s k a))).
 (* a pending (unflushed) change with value v *)
 Definition pending (s : state) (k : Z) (a : nat) (v : Z) : Prop :=
@@ -19,9 +19,10 @@ Definition named (ns : list nat) (a : nat) : bool := match ns with [] => true | 
 
 (* operations after which attribute a of instance k must read as the database's value *)
 Definition expires (eoc : bool) (o : op) (s : state) (k : Z) (a : nat) : Prop :=
+  oatt (objs s k) = true /\
   match o with
   | Expire k' ns | Refresh k' ns => k' = k /\ named ns a = true
-  | ExpireAll | PopEx => True
+  | ExpireAll | PopEx | PopExCols _ => True
   | Commit => eoc = true
   | Rollback => tx s = true
   | _ => False
@@ -31,6 +32,7 @@ Definition keeps (eoc : bool) (k : Z) (a : nat) (o : op) : Prop :=
   match o with
   | SetA k' a' _ => ~ (k' = k /\ a' = a)
   | Commit => eoc = true
+  | Expunge k' => k' <> k
   | _ => True
   end.
 (* operations that leave a pending change of (k, a) alone *)
@@ -38,8 +40,8 @@ Definition undisturbed (k : Z) (a : nat) (o : op) : Prop :=
   match o with
   | SetA k' a' _ => ~ (k' = k /\ a' = a)
   | Expire k' ns | Refresh k' ns => k' <> k \/ named ns a = false
-  | Read _ _ | Ext _ _ _ => True
-  | ExpireAll | Commit | Rollback | PopEx => False
+  | Read _ _ | Ext _ _ _ | Expunge _ | Add _ => True
+  | ExpireAll | Commit | Rollback | PopEx | PopExCols _ => False
   end.
 
 Lemma view_begin_read : forall s, view (begin_read s) = view s.
@@ -81,6 +83,15 @@ Proof. intros. unfold upd_obj. rewrite Z.eqb_refl. reflexivity. Qed.
 Lemma upd_obj_other : forall s k o k', k' <> k -> upd_obj s k o k' = objs s k'.
 Proof. intros. unfold upd_obj. destruct (Z.eqb_spec k' k); [contradiction|reflexivity]. Qed.
 
+Lemma oatt_expire_obj : forall ns o, oatt (expire_obj ns o) = oatt o.
+Proof. intros [|n t] o; reflexivity. Qed.
+Lemma oatt_refreshed : forall ns r o, oatt (refreshed_obj ns r o) = oatt o.
+Proof. intros [|n t] r o; reflexivity. Qed.
+Lemma att_true : forall f o, oatt o = true -> att f o = f o.
+Proof. intros f o H. unfold att. rewrite H. reflexivity. Qed.
+Lemma att_false : forall f o, oatt o = false -> att f o = o.
+Proof. intros f o H. unfold att. rewrite H. reflexivity. Qed.
+
 Section P.
 Variables (eoc : bool) (pks : list Z) (attrs : list nat).
 Notation stepT := (step eoc pks attrs).
@@ -90,105 +101,152 @@ Notation runT := (run eoc pks attrs).
 Lemma wf_init : forall r0, wf (init r0).
 Proof. intros r0 k a. cbn. discriminate. Qed.
 
+Lemma wf_att_expire : forall s, wf s -> forall k a,
+  oval (att expire_full (objs s k)) a = None ->
+  oexp (att expire_full (objs s k)) a = true /\ orig (att expire_full (objs s k)) a = None.
+Proof.
+  intros s W k a. unfold att. destruct (oatt (objs s k)); [intros _; cbn; split; reflexivity|apply W].
+Qed.
+
 Lemma wf_step : forall o s, wf s -> wf (fst (stepT o s)).
 Proof.
-  intros o s W. destruct o as [k a|k a v|k ns| |k ns| | | |k a v]; cbn [step].
+  intros o s W. destruct o as [k a|k a v|k ns| |k ns| | | |k a v|ns|k|k]; cbn [step].
   - destruct (oval (objs s k) a) eqn:E; cbn [fst]; [exact W|].
+    destruct (oatt (objs s k)); cbn [fst]; [|exact W].
     intros k' a'. cbn [with_objs objs]. unfold upd_obj. destruct (Z.eqb_spec k' k) as [->|N]; [|apply W].
     cbn [loaded_obj oval oexp orig]. destruct (oexp (objs s k) a' && isnone (orig (objs s k) a')) eqn:C; [discriminate|].
     intros H. destruct (W k a' H) as [A B]. rewrite A, B in C. discriminate.
   - cbn [fst]. intros k' a'. cbn [objs]. unfold upd_obj. destruct (Z.eqb_spec k' k) as [->|N]; [|apply W].
     cbn [oval oexp orig]. destruct (Nat.eqb_spec a' a); [discriminate|]. apply W.
-  - cbn [fst]. intros k' a'. cbn [with_objs objs]. unfold upd_obj. destruct (Z.eqb_spec k' k) as [->|N]; [|apply W].
+  - destruct (oatt (objs s k)); cbn [fst]; [|exact W].
+    intros k' a'. cbn [with_objs objs]. unfold upd_obj. destruct (Z.eqb_spec k' k) as [->|N]; [|apply W].
     destruct (named ns a') eqn:Nm.
     + destruct (expire_obj_named ns (objs s k) a' Nm) as [A [B C]]. intros _. split; assumption.
     + destruct (expire_obj_unnamed ns (objs s k) a' Nm) as [A [B [C _]]]. rewrite A, B, C. apply W.
-  - cbn [fst]. intros k' a' _. cbn. split; reflexivity.
-  - cbn [fst]. intros k' a'. cbn [with_objs objs]. unfold upd_obj. destruct (Z.eqb_spec k' k) as [->|N]; [|apply W].
+  - cbn [fst]. intros k' a'. cbn [with_objs objs]. apply wf_att_expire, W.
+  - destruct (oatt (objs s k)); cbn [fst]; [|exact W].
+    intros k' a'. cbn [with_objs objs]. unfold upd_obj. destruct (Z.eqb_spec k' k) as [->|N]; [|apply W].
     destruct (named ns a') eqn:Nm.
     + destruct (refreshed_named ns (view (begin_read s) k) (expire_obj ns (objs s k)) a' Nm) as [A _]. rewrite A. discriminate.
     + destruct (refreshed_unnamed ns (view (begin_read s) k) (expire_obj ns (objs s k)) a' Nm) as [A [B [C _]]].
       destruct (expire_obj_unnamed ns (objs s k) a' Nm) as [A' [B' [C' _]]]. rewrite A, B, C, A', B', C'. apply W.
   - unfold commit. destruct (any_changed pks attrs s && _); cbn [fst].
-    + intros k' a' _. cbn. split; reflexivity.
-    + intros k' a'. cbn [objs]. destruct eoc; [intros _; cbn; split; reflexivity|].
+    + intros k' a'. cbn [rolled_back objs]. apply wf_att_expire, W.
+    + intros k' a'. cbn [objs]. destruct (oatt (objs s k')); [|apply W].
+      destruct eoc; [intros _; cbn; split; reflexivity|].
       destruct (omod (objs s k')) eqn:M; [|apply W].
       destruct (isnone (oval (objs s k') 0%nat)); cbn [finalized loaded_obj oval oexp orig].
       * destruct (oexp (objs s k') a' && isnone (orig (objs s k') a')) eqn:C; [discriminate|].
         intros H. destruct (W k' a' H) as [A B]. rewrite A, B in C. discriminate.
       * intros H. destruct (W k' a' H) as [A B]. rewrite A, H. split; reflexivity.
-  - destruct (tx s); cbn [fst]; [|exact W]. intros k' a' _. cbn. split; reflexivity.
-  - cbn [fst]. intros k' a'. cbn. discriminate.
+  - destruct (tx s); cbn [fst]; [|exact W]. intros k' a'. cbn [rolled_back objs]. apply wf_att_expire, W.
+  - cbn [fst]. intros k' a'. cbn [with_objs objs]. unfold att. destruct (oatt (objs s k')); [cbn; discriminate|apply W].
   - cbn [fst]. exact W.
+  - cbn [fst]. intros k' a'. cbn [with_objs objs]. unfold att. destruct (oatt (objs s k')); [|apply W].
+    cbn [populated_obj oval oexp orig]. destruct (in_row ns a'); [discriminate|intros _; split; reflexivity].
+  - destruct (oatt (objs s k)); cbn [fst]; [|exact W].
+    intros k' a'. cbn [with_objs objs]. unfold upd_obj. destruct (Z.eqb_spec k' k) as [->|N]; [|apply W]. cbn [oval oexp orig]. apply W.
+  - cbn [fst]. intros k' a'. cbn [objs]. unfold upd_obj. destruct (Z.eqb_spec k' k) as [->|N]; [|apply W]. cbn [oval oexp orig]. apply W.
 Qed.
 
 Lemma wf_run : forall l s, wf s -> wf (runT l s).
 Proof. induction l as [|o t IH]; intros s W; cbn [run]; [exact W|]. apply IH, wf_step, W. Qed.
 
 (* ---------- clause 1: establish / preserve / use ---------- *)
+Lemma synced_expired : forall s k a, oatt (objs s k) = true -> orig (objs s k) a = None -> oval (objs s k) a = None -> synced s k a.
+Proof. intros s k a A B C. split; [exact A|split; [exact B|left; exact C]]. Qed.
+
 Lemma expires_synced : forall o s k a, expires eoc o s k a -> synced (fst (stepT o s)) k a.
 Proof.
-  intros o s k a H. destruct o as [k' a'|k' a' v|k' ns| |k' ns| | | |k' a' v]; cbn [expires] in H; try contradiction; cbn [step].
-  - destruct H as [-> Nm]. cbn [fst]. unfold synced. cbn [with_objs objs]. rewrite upd_obj_same.
-    destruct (expire_obj_named ns (objs s k) a Nm) as [A [B _]]. split; [exact B|left; exact A].
-  - cbn [fst]. unfold synced. cbn. split; [reflexivity|left; reflexivity].
-  - destruct H as [-> Nm]. cbn [fst]. unfold synced. rewrite view_with_objs. cbn [with_objs objs snap]. rewrite upd_obj_same.
+  intros o s k a [HA H]. destruct o as [k' a'|k' a' v|k' ns| |k' ns| | | |k' a' v|ns|k'|k']; try contradiction; cbn [step].
+  - destruct H as [-> Nm]. rewrite HA. cbn [fst]. unfold synced. cbn [with_objs objs]. rewrite upd_obj_same.
+    destruct (expire_obj_named ns (objs s k) a Nm) as [A [B _]]. rewrite oatt_expire_obj.
+    split; [exact HA|split; [exact B|left; exact A]].
+  - cbn [fst]. apply synced_expired; cbn [with_objs objs]; rewrite (att_true _ _ HA); [exact HA|reflexivity|reflexivity].
+  - destruct H as [-> Nm]. rewrite HA. cbn [fst]. unfold synced. rewrite view_with_objs. cbn [with_objs objs snap]. rewrite upd_obj_same.
     destruct (refreshed_named ns (view (begin_read s) k) (expire_obj ns (objs s k)) a Nm) as [A [B _]].
-    split; [exact B|right]. split; [apply snap_begin_read|exact A].
-  - subst eoc. unfold commit. destruct (any_changed pks attrs s && _); cbn [fst]; unfold synced; cbn; (split; [reflexivity|left; reflexivity]).
-  - rewrite H. cbn [fst]. unfold synced. cbn. split; [reflexivity|left; reflexivity].
-  - cbn [fst]. unfold synced. rewrite view_with_objs. cbn [with_objs objs snap refreshed_obj oval orig].
-    split; [reflexivity|right]. split; [apply snap_begin_read|reflexivity].
+    rewrite oatt_refreshed, oatt_expire_obj.
+    split; [exact HA|split; [exact B|right]]. split; [apply snap_begin_read|exact A].
+  - subst eoc. unfold commit. destruct (any_changed pks attrs s && _); cbn [fst].
+    + apply synced_expired; cbn [rolled_back objs]; rewrite (att_true _ _ HA); [exact HA|reflexivity|reflexivity].
+    + apply synced_expired; cbn [objs]; rewrite HA; [|reflexivity|reflexivity].
+      cbn [expire_full oatt]. destruct (omod (objs s k)); [|exact HA].
+      destruct (isnone (oval (objs s k) 0%nat)); cbn [finalized loaded_obj oatt]; exact HA.
+  - rewrite H. cbn [fst]. apply synced_expired; cbn [rolled_back objs]; rewrite (att_true _ _ HA); [exact HA|reflexivity|reflexivity].
+  - cbn [fst]. unfold synced. rewrite view_with_objs. cbn [with_objs objs snap]. rewrite (att_true _ _ HA).
+    cbn [refreshed_obj oval orig oatt].
+    split; [exact HA|split; [reflexivity|right]]. split; [apply snap_begin_read|reflexivity].
+  - cbn [fst]. unfold synced. rewrite view_with_objs. cbn [with_objs objs snap]. rewrite (att_true _ _ HA).
+    cbn [populated_obj oval orig oatt]. split; [exact HA|split; [reflexivity|]].
+    destruct (in_row ns a); [right; split; [apply snap_begin_read|reflexivity]|left; reflexivity].
 Qed.
 
 Lemma keeps_synced : forall o s k a, keeps eoc k a o -> synced s k a -> synced (fst (stepT o s)) k a.
 Proof.
-  intros o s k a K [S1 S2]. destruct o as [k' a'|k' a' v|k' ns| |k' ns| | | |k' a' v]; cbn [keeps] in K; cbn [step].
+  intros o s k a K [SA [S1 S2]].
+  destruct o as [k' a'|k' a' v|k' ns| |k' ns| | | |k' a' v|ns|k'|k']; cbn [keeps] in K; cbn [step].
   - (* read *)
-    destruct (oval (objs s k') a'); cbn [fst]; [split; assumption|].
+    destruct (oval (objs s k') a'); cbn [fst]; [split; [exact SA|split; assumption]|].
+    destruct (oatt (objs s k')) eqn:HA'; cbn [fst]; [|split; [exact SA|split; assumption]].
     unfold synced. rewrite view_with_objs, view_begin_read. cbn [with_objs objs snap].
     unfold upd_obj. destruct (Z.eqb_spec k k') as [->|N].
-    + cbn [loaded_obj oval orig]. split; [exact S1|]. rewrite S1. cbn [isnone]. rewrite andb_true_r.
+    + cbn [loaded_obj oval orig oatt]. split; [exact SA|]. split; [exact S1|]. rewrite S1. cbn [isnone]. rewrite andb_true_r.
       destruct (oexp (objs s k') a).
       * right. split; [apply snap_begin_read|reflexivity].
       * destruct S2 as [E|[E1 E2]]; [left; exact E|right]. split; [apply snap_begin_read|exact E2].
-    + split; [exact S1|]. destruct S2 as [E|[E1 E2]]; [left; exact E|right]. split; [apply snap_begin_read|exact E2].
+    + split; [exact SA|]. split; [exact S1|]. destruct S2 as [E|[E1 E2]]; [left; exact E|right]. split; [apply snap_begin_read|exact E2].
   - (* set of another attribute *)
     cbn [fst]. unfold synced, view. cbn [objs snap com]. fold (view s). unfold upd_obj.
-    destruct (Z.eqb_spec k k') as [->|N]; [|split; assumption].
-    cbn [oval orig]. destruct (Nat.eqb_spec a a') as [->|Na]; [exfalso; apply K; split; reflexivity|]. split; assumption.
+    destruct (Z.eqb_spec k k') as [->|N]; [|split; [exact SA|split; assumption]].
+    cbn [oval orig oatt]. destruct (Nat.eqb_spec a a') as [->|Na]; [exfalso; apply K; split; reflexivity|].
+    split; [exact SA|split; assumption].
   - (* expire *)
-    cbn [fst]. unfold synced. rewrite view_with_objs. cbn [with_objs objs snap]. unfold upd_obj.
-    destruct (Z.eqb_spec k k') as [->|N]; [|split; assumption].
+    destruct (oatt (objs s k')) eqn:HA'; cbn [fst]; [|split; [exact SA|split; assumption]].
+    unfold synced. rewrite view_with_objs. cbn [with_objs objs snap]. unfold upd_obj.
+    destruct (Z.eqb_spec k k') as [->|N]; [|split; [exact SA|split; assumption]].
+    rewrite oatt_expire_obj. split; [exact SA|].
     destruct (named ns a) eqn:Nm.
     + destruct (expire_obj_named ns (objs s k') a Nm) as [A [B _]]. split; [exact B|left; exact A].
     + destruct (expire_obj_unnamed ns (objs s k') a Nm) as [A [B _]]. rewrite A, B. split; assumption.
-  - cbn [fst]. unfold synced. cbn. split; [reflexivity|left; reflexivity].
+  - apply (expires_synced ExpireAll). split; [exact SA|exact I].
   - (* refresh *)
-    cbn [fst]. unfold synced. rewrite view_with_objs, view_begin_read. cbn [with_objs objs snap]. unfold upd_obj.
+    destruct (oatt (objs s k')) eqn:HA'; cbn [fst]; [|split; [exact SA|split; assumption]].
+    unfold synced. rewrite view_with_objs, view_begin_read. cbn [with_objs objs snap]. unfold upd_obj.
     destruct (Z.eqb_spec k k') as [->|N].
-    + destruct (named ns a) eqn:Nm.
+    + rewrite oatt_refreshed, oatt_expire_obj. split; [exact SA|].
+      destruct (named ns a) eqn:Nm.
       * destruct (refreshed_named ns (view s k') (expire_obj ns (objs s k')) a Nm) as [A [B _]].
         split; [exact B|right]. split; [apply snap_begin_read|]. rewrite A. reflexivity.
       * destruct (refreshed_unnamed ns (view s k') (expire_obj ns (objs s k')) a Nm) as [A [B _]].
         destruct (expire_obj_unnamed ns (objs s k') a Nm) as [A' [B' _]]. rewrite A, B, A', B'.
         split; [exact S1|]. destruct S2 as [E|[E1 E2]]; [left; exact E|right]. split; [apply snap_begin_read|exact E2].
-    + split; [exact S1|]. destruct S2 as [E|[E1 E2]]; [left; exact E|right]. split; [apply snap_begin_read|exact E2].
-  - apply (expires_synced Commit). cbn [expires]. exact K.
-  - destruct (tx s) eqn:T; cbn [fst]; [|split; assumption]. unfold synced. cbn. split; [reflexivity|left; reflexivity].
-  - apply (expires_synced PopEx). exact I.
+    + split; [exact SA|]. split; [exact S1|]. destruct S2 as [E|[E1 E2]]; [left; exact E|right]. split; [apply snap_begin_read|exact E2].
+  - apply (expires_synced Commit). split; [exact SA|exact K].
+  - destruct (tx s) eqn:T; cbn [fst]; [|split; [exact SA|split; assumption]].
+    pose proof (expires_synced Rollback s k a (conj SA T)) as X. cbn [step] in X. rewrite T in X. exact X.
+  - apply (expires_synced PopEx). split; [exact SA|exact I].
   - (* external update: an open snapshot does not move; without one the attribute is expired *)
-    cbn [fst]. unfold synced, view. cbn [objs snap com]. split; [exact S1|].
+    cbn [fst]. unfold synced, view. cbn [objs snap com]. split; [exact SA|]. split; [exact S1|].
     destruct S2 as [E|[E1 E2]]; [left; exact E|right]. split; [exact E1|].
     unfold view in E2. destruct (snap s) as [[g r]|]; [exact E2|contradiction].
+  - apply (expires_synced (PopExCols ns)). split; [exact SA|exact I].
+  - (* expunge of another instance *)
+    destruct (oatt (objs s k')); cbn [fst]; [|split; [exact SA|split; assumption]].
+    unfold synced. rewrite view_with_objs. cbn [with_objs objs snap]. rewrite upd_obj_other by exact (not_eq_sym K).
+    split; [exact SA|split; assumption].
+  - (* add *)
+    cbn [fst]. unfold synced, view. cbn [objs snap com]. fold (view s). unfold upd_obj.
+    destruct (Z.eqb_spec k k') as [->|N]; [|split; [exact SA|split; assumption]].
+    cbn [oval orig oatt]. split; [reflexivity|split; assumption].
 Qed.
 
 Lemma read_synced : forall s k a, wf s -> synced s k a ->
   snd (stepT (Read k a) s) = RVal (Some (view s k a)).
 Proof.
-  intros s k a W [S1 S2]. cbn [step]. destruct (oval (objs s k) a) as [v|] eqn:E; cbn [snd].
+  intros s k a W [SA [S1 S2]]. cbn [step]. destruct (oval (objs s k) a) as [v|] eqn:E; cbn [snd].
   - destruct S2 as [X|[_ X]]; [discriminate|]. rewrite X. reflexivity.
-  - destruct (W k a E) as [A B]. cbn [loaded_obj oval]. rewrite A, B. cbn [isnone andb]. rewrite view_begin_read. reflexivity.
+  - rewrite SA. cbn [snd]. destruct (W k a E) as [A B]. cbn [loaded_obj oval]. rewrite A, B. cbn [isnone andb].
+    rewrite view_begin_read. reflexivity.
 Qed.
 
 Theorem synced_run : forall l s k a, Forall (keeps eoc k a) l -> synced s k a -> synced (runT l s) k a.
@@ -200,20 +258,29 @@ Qed.
 (* ---------- clause 2: pending changes that were not expired ---------- *)
 Lemma undisturbed_pending : forall o s k a v, undisturbed k a o -> pending s k a v -> pending (fst (stepT o s)) k a v.
 Proof.
-  intros o s k a v U [P1 P2]. destruct o as [k' a'|k' a' v'|k' ns| |k' ns| | | |k' a' v']; cbn [undisturbed] in U; try contradiction; cbn [step].
+  intros o s k a v U [P1 P2].
+  destruct o as [k' a'|k' a' v'|k' ns| |k' ns| | | |k' a' v'|ns|k'|k']; cbn [undisturbed] in U; try contradiction; cbn [step].
   - destruct (oval (objs s k') a'); cbn [fst]; [split; assumption|].
+    destruct (oatt (objs s k')); cbn [fst]; [|split; assumption].
     unfold pending. cbn [with_objs objs]. unfold upd_obj. destruct (Z.eqb_spec k k') as [->|N]; [|split; assumption].
     cbn [loaded_obj oval orig]. split; [exact P1|]. destruct (orig (objs s k') a); [|contradiction].
     cbn [isnone]. rewrite andb_false_r. exact P2.
   - cbn [fst]. unfold pending. cbn [objs]. unfold upd_obj. destruct (Z.eqb_spec k k') as [->|N]; [|split; assumption].
     cbn [oval orig]. destruct (Nat.eqb_spec a a') as [->|Na]; [exfalso; apply U; split; reflexivity|]. split; assumption.
-  - cbn [fst]. unfold pending. cbn [with_objs objs]. unfold upd_obj. destruct (Z.eqb_spec k k') as [->|N]; [|split; assumption].
+  - destruct (oatt (objs s k')); cbn [fst]; [|split; assumption].
+    unfold pending. cbn [with_objs objs]. unfold upd_obj. destruct (Z.eqb_spec k k') as [->|N]; [|split; assumption].
     destruct U as [U|U]; [contradiction|]. destruct (expire_obj_unnamed ns (objs s k') a U) as [A [B _]]. rewrite A, B. split; assumption.
-  - cbn [fst]. unfold pending. cbn [with_objs objs]. unfold upd_obj. destruct (Z.eqb_spec k k') as [->|N]; [|split; assumption].
+  - destruct (oatt (objs s k')); cbn [fst]; [|split; assumption].
+    unfold pending. cbn [with_objs objs]. unfold upd_obj. destruct (Z.eqb_spec k k') as [->|N]; [|split; assumption].
     destruct U as [U|U]; [contradiction|].
     destruct (refreshed_unnamed ns (view (begin_read s) k') (expire_obj ns (objs s k')) a U) as [A [B _]].
     destruct (expire_obj_unnamed ns (objs s k') a U) as [A' [B' _]]. rewrite A, B, A', B'. split; assumption.
   - cbn [fst]. split; assumption.
+  - destruct (oatt (objs s k')); cbn [fst]; [|split; assumption].
+    unfold pending. cbn [with_objs objs]. unfold upd_obj. destruct (Z.eqb_spec k k') as [->|N]; [|split; assumption].
+    cbn [oval orig]. split; assumption.
+  - cbn [fst]. unfold pending. cbn [objs]. unfold upd_obj. destruct (Z.eqb_spec k k') as [->|N]; [|split; assumption].
+    cbn [oval orig]. split; assumption.
 Qed.
 
 Lemma read_pending : forall s k a v, pending s k a v ->
@@ -227,7 +294,7 @@ Proof.
 Qed.
 
 (* ---------- clause 3: refresh overwrites exactly the named attributes of exactly the named instance ---------- *)
-Theorem refresh_exact : forall s k ns,
+Theorem refresh_exact : forall s k ns, oatt (objs s k) = true ->
   let s' := fst (stepT (Refresh k ns) s) in
   (forall a, named ns a = true ->
      oval (objs s' k) a = Some (view s k a) /\ orig (objs s' k) a = None /\ oexp (objs s' k) a = false) /\
@@ -238,7 +305,7 @@ Theorem refresh_exact : forall s k ns,
   com s' = com s /\ gen s' = gen s /\ view s' = view s /\ snap s' <> None /\
   selects pks attrs (Refresh k ns) s (snd (stepT (Refresh k ns) s)) = 1%nat.
 Proof.
-  intros s k ns. cbn [step fst snd]. cbv zeta. cbn [with_objs objs com gen snap selects].
+  intros s k ns HA. cbn [step selects]. rewrite HA. cbn [fst snd]. cbv zeta. cbn [with_objs objs com gen snap].
   rewrite upd_obj_same. split; [|split; [|split; [|split; [|split; [|split; [|split]]]]]].
   - intros a Nm. destruct (refreshed_named ns (view (begin_read s) k) (expire_obj ns (objs s k)) a Nm) as [A [B C]].
     rewrite A, B, C, view_begin_read. repeat split.
@@ -250,5 +317,18 @@ Proof.
   - apply view_begin_read.
   - apply snap_begin_read.
   - reflexivity.
+Qed.
+
+(* a populate_existing query whose rows lack some loaded columns: what is in the row is overwritten, what is not is
+   discarded and expired, pending changes included - nothing keeps an old value *)
+Theorem popex_cols_exact : forall s ns k, oatt (objs s k) = true ->
+  let s' := fst (stepT (PopExCols ns) s) in
+  forall a, orig (objs s' k) a = None /\
+    (in_row ns a = true -> oval (objs s' k) a = Some (view s k a)) /\
+    (in_row ns a = false -> oval (objs s' k) a = None /\ oexp (objs s' k) a = true).
+Proof.
+  intros s ns k HA. cbn [step fst]. cbv zeta. cbn [with_objs objs]. rewrite (att_true _ _ HA). intros a.
+  cbn [populated_obj oval orig oexp]. rewrite view_begin_read. split; [reflexivity|].
+  split; intros E; rewrite E; [reflexivity|split; reflexivity].
 Qed.
 End P.
